@@ -497,6 +497,12 @@ PATTERNS = {
     '4-stage-sil3-pattern': (4, [[1], [1, 1], [1, 1, 1]], [[1, 1], [1, 0, 1], [1, 0, 1, 1]], [1, 1, 1, 0], 'last_row'),
     '4-stage-ars343-pattern': (4, [[1], [1, 1], [1, 1, 1]], [[0, 1], [0, 1, 1], [0, 1, 1, 1]], [0, 1, 1, 1], 'last_row'),
     '3-stage-explicit-only-diagonal-free': (3, [[1], [1, 1]], [[0, 0], [0, 0, 0]], [1, 1, 1], [0, 0, 0]),
+    # stages whose tendency is consumed ONLY by the immediately following stage (zero weight in b): midpoint, Heun's third-order scheme, chains
+    '2-stage-midpoint': (2, [[1]], [[0, 1]], [0, 1], [0, 1]),
+    '3-stage-heun3-pattern': (3, [[1], [0, 1]], [[0, 1], [0, 0, 1]], [1, 0, 1], [1, 0, 1]),
+    '3-stage-chain-b-last-only': (3, [[1], [0, 1]], [[1, 1], [0, 1, 1]], [0, 0, 1], [0, 0, 1]),
+    '4-stage-chain-rk4-pattern': (4, [[1], [0, 1], [0, 0, 1]], [[0, 1], [0, 0, 1], [0, 0, 0, 1]], [1, 1, 1, 1], [0, 1, 1, 1]),
+    '4-stage-chain-b-last-only': (4, [[1], [0, 1], [0, 0, 1]], [[1, 0], [0, 1, 0], [0, 0, 1, 1]], [0, 0, 0, 1], [0, 0, 1, 1]),
 }
 
 
